@@ -214,9 +214,37 @@ func isOmitEmptyTail(c verifcodec.Codec, v interface{}, in, out []byte) bool {
 	return len(in) == len(out)+4 && bytes.Equal(in[:len(out)], out) && bytes.Equal(in[len(out):], []byte{0, 0, 0, 0})
 }
 
-func mutateBytes(t *rapid.T, b []byte, maxlens []int) ([]byte, string) {
+func mutateBytes(t *rapid.T, b []byte, maxlens []int, lens []enc.LenAt) ([]byte, string) {
 	b = append([]byte(nil), b...)
-	switch rapid.IntRange(0, 6).Draw(t, "bmut") {
+	switch rapid.IntRange(0, 8).Draw(t, "bmut") {
+	case 7, 8: // aimed: rewrite one real length prefix of the encoding with a boundary value of its own field
+		var in []enc.LenAt
+		for _, l := range lens {
+			if l.Off+4 <= len(b) {
+				in = append(in, l)
+			}
+		}
+		if len(in) == 0 {
+			return b, "valid"
+		}
+		l := in[rapid.IntRange(0, len(in)-1).Draw(t, "whichlen")]
+		cands := []uint32{0, 1, uint32(len(b) - l.Off - 4), uint32(len(b)-l.Off-4) + 1, 0x7fffffff, 0xffffffff}
+		if l.MaxLen > 0 {
+			cands = []uint32{uint32(l.MaxLen), uint32(l.MaxLen), uint32(l.MaxLen + 1), uint32(l.MaxLen - 1), uint32(l.MaxLen), 0, 0xffffffff}
+		}
+		binary.LittleEndian.PutUint32(b[l.Off:], rapid.SampledFrom(cands).Draw(t, "lenval"))
+		switch rapid.IntRange(0, 3).Draw(t, "after") {
+		case 0:
+			b = b[:l.Off+4]
+		case 1, 2:
+			// the decoders compare the length with the number of bytes that follow before they look at maxlen:
+			// give them at least maxlen+1 bytes so that the maxlen comparison itself decides
+			if l.MaxLen > 0 && l.MaxLen <= 1<<16 {
+				b = append(b[:l.Off+4:l.Off+4], make([]byte, l.MaxLen+2+rapid.IntRange(0, 40).Draw(t, "pad"))...)
+				return b, "len_aimed_padded"
+			}
+		}
+		return b, "len_aimed"
 	case 0:
 		return b, "valid"
 	case 1:
@@ -283,11 +311,11 @@ func TestC21_Codecs(t *testing.T) {
 				if err := checkValue(c, v); err != nil {
 					t.Fatal(err)
 				}
-				base := enc.Encode(v)
+				base, lens := enc.EncodeLenOffsets(v)
 				if len(base) > 4096 {
 					base = base[:4096]
 				}
-				b, class := mutateBytes(t, base, mls)
+				b, class := mutateBytes(t, base, mls, lens)
 				decoded, err := checkBytes(c, b)
 				if err != nil {
 					t.Fatal(err)
